@@ -1,4 +1,5 @@
 import PeptVerif.Lemmas.IsotopePrune
+import PeptVerif.Props.C14
 /-!
 # C14 (extension, round 5) — quantitative effect of the pruning and rounding steps
 
@@ -172,5 +173,31 @@ example : maxAb exD = some (9 / 10) ∧ NonNeg exD ∧
   intro p hp
   simp only [exD, List.mem_cons, List.not_mem_nil, or_false] at hp
   rcases hp with rfl | rfl <;> norm_num
+
+/-- **weighted mean of the rounded element loop**: no pruning (floor off, `max_isotopes`, `conv_min_abundance_threshold` None) but
+`distribution_resolution = r ≥ 0`: if every element's isotope abundances sum to 1, the un-normalised pattern after the element
+loop has total exactly 1 and its abundance-weighted mean is within `(number of elements)·½·10^-r` of the average mass
+`Σ count·Σ_iso mass·abundance` of the (rounded) composition — the rounding allowance the oracle uses, now proved. -/
+theorem weighted_mean_raw_rounded (f : Formula) (o : Opts) (t : Dist Rat) (p d m : Rat) (r : Nat)
+    (hraw : rawDistribution f o = .ok (t, p, d, m))
+    (hfl : o.floor = none) (hmi : o.maxIsotopes = none) (hct : o.convMinAbundanceThreshold = none)
+    (hres : o.resolution = some (r : Int)) :
+    ∃ L, resolve o (cleanFormula f) = some L ∧
+      ((∀ x ∈ L, total x.1 = 1) →
+        total t = 1 ∧ |moment t - momentSum L| ≤ (L.length : Rat) * (1 / 2 / (10 : Rat) ^ r)) := by
+  obtain ⟨L, hL, ht, _⟩ := rawDistribution_ok f o t p d m hraw
+  refine ⟨L, hL, fun h1 => ?_⟩
+  have hpos := listPos_of_resolve o _ L hL
+  rw [ht, hfl, hmi, hct, hres]
+  have hT := total_convolveList (roundOpt (some (r : Int))) L [((0 : Rat), 1)] hpos allPos_start
+  have hM := moment_convolveList_round r L [((0 : Rat), 1)] hpos allPos_start h1
+  have e1 : total [((0 : Rat), (1 : Rat))] = 1 := by simp [total]
+  have e2 : moment [((0 : Rat), (1 : Rat))] = 0 := by simp [moment]
+  rw [e1, e2, zero_add, one_mul, mul_one] at hM
+  rw [e1, totalProd_one L h1, one_mul] at hT
+  simp only [Option.getD_none]
+  exact ⟨hT, hM⟩
+
+example : C14.rawOk C14.exF1 { floor := none, resolution := some ((2 : Nat) : Int) } = true := by decide +kernel
 
 end C14Ext
